@@ -51,7 +51,7 @@ func switchCases(info *types.Info, sw *ast.SwitchStmt) (vals map[int64]bool, has
 			continue
 		}
 		for _, e := range cc.List {
-			if tv, ok := info.Types[e]; ok && tv.Value != nil {
+			if tv, ok := info.Types[e]; ok && tv.Value != nil && tv.Value.Kind() == constant.Int {
 				if v, ok := constant.Int64Val(tv.Value); ok {
 					vals[v] = true
 				}
